@@ -1,6 +1,6 @@
 (* Comparison functions evaluated by generated case files (checks/sqltext.py). *)
 From Coq Require Import List ZArith NArith String Ascii Bool.
-From Qryn Require Import lib.Strs model.Sql model.SqlRender model.Logql model.LogqlPlan.
+From Qryn Require Import lib.Strs model.Sql model.SqlRender model.Logql model.LogqlPlan model.LogqlTemplate.
 Import ListNotations.
 Open Scope string_scope.
 
@@ -39,6 +39,13 @@ Fixpoint olist_eqb (a b : list (option string)) : bool :=
 Definition lcase_mismatch (c : lcase) : bool :=
   negb (olist_eqb (log_sqls (lc_sel c) (lc_final c) (lc_ctx c) (List.length (lc_sql c))) (lc_sql c)).
 Definition log_mismatches (cs : list lcase) : list Z := map lc_id (filter lcase_mismatch cs).
+
+(* ---------- a line_format template alone (checks/sqltext.run_tpl) ----------
+   what the template model says of the text (Some true = parsed, Some false = Parse refuses it, None = outside the transcribed
+   fragment: no claim) and the statement of LineFormatPlanner{Main: SQLMainInitPlanner, Template: t} *)
+Definition tpl_probe (t : string) (c : pctx) : option bool * option string :=
+  (match tpl_parse t with TOk _ => Some true | TErr => Some false | TUnmodelled => None end,
+   match process (PLineFormatP t PMainInit) c pst0 with Some (q, _, _) => render q (c_cluster c) | None => None end).
 
 (* ---------- any script (metric queries, C08) ---------- *)
 Definition script_sqls (s : script) (finalize : bool) (c : pctx) (runs : nat) : list (option string) :=
